@@ -26,7 +26,8 @@ CLAIMS = {
          "below allowed_blocked_microsec or blocked share below both limits (if set), the blocked time being the accounting recount acct_hist -- proved to be a "
          "function of the BlockingBegin/BlockingEnd reports and call timestamps only (begin while active / end while inactive ignored, backwards time = 0 elapsed, "
          "ongoing block counted to now). For the microsecond virtual clock the share is the exact rational blocked/elapsed (Flocq proof, values < 2^53 us); "
-         "for any other clock it is the clock's own f64 quotient.", "DESIGN.md section 4, C03"),
+         "for the crate's std::time clock (C03_budget_std, C03_share_std_tolerance) the share tested is the quotient of two as_secs_f64() values and the exact share is shown to be below the limit times (1 + 2^-50) "
+         "(durations < 2^53 s); for any other clock it is the clock's own f64 quotient. One third of the differential cases run on the real std::time clock.", "DESIGN.md section 0 and 4, C03"),
  "C04": ("Theorems C04_contract, C04_one_day, C04_end_absorbing(_call): returned actions name pairwise distinct existing machines, each has the "
          "kind and flags of an action of that machine, every timeout/duration is <= 86_400_000_000 us for every oracle value (Flocq proof "
          "of the clamp, NaN/inf included), and a machine in STATE_END never acts again in any later call of any history.", "DESIGN.md section 4, C04"),
@@ -50,11 +51,14 @@ CLAIMS = {
          "a machine answered during the round; two or more distinct signallers reach every index exactly once; the delivery list never contains a duplicate "
          "and no pending signal survives the call. The log is tied to the code by the hook log comparison.", "DESIGN.md section 4, C09"),
 
- "C10": ("Theorem C10_solo: for EVERY configuration, every position i whose machine samples deterministically (probability-1 vectors, constant distributions) and every neighbour set "
+ "C10": ("Theorem C10_solo_any: for EVERY configuration in which no machine can signal, ANY machine at position i (probabilistic transitions, any distributions), every history and tape: there is a list l of draws, "
+         "an order-preserving sub-sequence of the tape prefix the combined run consumed (the machine's own draws), such that the machine running alone on the projected history on ANY tape starting with l "
+         "consumes exactly l and returns, call by call, the actions it returned in the combined run. Theorem C10_solo: for EVERY configuration, every position i whose machine samples deterministically (probability-1 vectors, constant distributions) and every neighbour set "
          "without signal transitions (neighbours otherwise arbitrary and probabilistic), every history, start time and every PAIR of random tapes: the actions returned for machine i in the "
          "combined run equal, call by call, the actions of the machine running alone on the projected history (events addressed to neighbours mapped to an unknown id), up to its id; "
          "C10_solo_total: both runs exist for valid configurations. Two-run simulation over transition (induction on fuel), built on the frame lemmas C10_step_frame / C10_decrement_frame "
-         "and the accounting projection. The differential runs deterministic machines next to arbitrary neighbours and alone, on the implementation and on the model.", "DESIGN.md section 0 and 4, C10"),
+         "and the accounting projection. The differential runs deterministic machines next to arbitrary neighbours and alone, on the implementation and on the model, and re-runs an arbitrary probabilistic machine alone on the real code "
+         "with a random source replaying exactly the words it drew next to its neighbours.", "DESIGN.md section 0 and 4, C10"),
 
  "C12": ("Theorems C12_sound (validate_machine m = true -> WF_machine m, WF stated over real numbers from the documentation: fractions real in [0,1], "
          "probabilities real in (0,1], f32 sums in (0,1], targets in range without duplicates, distribution parameters in their documented domains), "
@@ -80,11 +84,14 @@ CLAIMS = {
          "a machine answered during the round; two or more distinct signallers reach every index exactly once; the delivery list never contains a duplicate "
          "and no pending signal survives the call. The log is tied to the code by the hook log comparison.", "DESIGN.md section 4, C09"),
 
- "C10": ("Theorem C10_solo: for EVERY configuration, every position i whose machine samples deterministically (probability-1 vectors, constant distributions) and every neighbour set "
+ "C10": ("Theorem C10_solo_any: for EVERY configuration in which no machine can signal, ANY machine at position i (probabilistic transitions, any distributions), every history and tape: there is a list l of draws, "
+         "an order-preserving sub-sequence of the tape prefix the combined run consumed (the machine's own draws), such that the machine running alone on the projected history on ANY tape starting with l "
+         "consumes exactly l and returns, call by call, the actions it returned in the combined run. Theorem C10_solo: for EVERY configuration, every position i whose machine samples deterministically (probability-1 vectors, constant distributions) and every neighbour set "
          "without signal transitions (neighbours otherwise arbitrary and probabilistic), every history, start time and every PAIR of random tapes: the actions returned for machine i in the "
          "combined run equal, call by call, the actions of the machine running alone on the projected history (events addressed to neighbours mapped to an unknown id), up to its id; "
          "C10_solo_total: both runs exist for valid configurations. Two-run simulation over transition (induction on fuel), built on the frame lemmas C10_step_frame / C10_decrement_frame "
-         "and the accounting projection. The differential runs deterministic machines next to arbitrary neighbours and alone, on the implementation and on the model.", "DESIGN.md section 0 and 4, C10"),
+         "and the accounting projection. The differential runs deterministic machines next to arbitrary neighbours and alone, on the implementation and on the model, and re-runs an arbitrary probabilistic machine alone on the real code "
+         "with a random source replaying exactly the words it drew next to its neighbours.", "DESIGN.md section 0 and 4, C10"),
 
  "C12": ("Theorems C12_sound (validate_machine m = true -> WF_machine m, WF stated over real numbers from the documentation: fractions real in [0,1], "
          "probabilities real in (0,1], f32 sums in (0,1], targets in range without duplicates, distribution parameters in their documented domains), "
@@ -130,20 +137,29 @@ CLAIMS = {
          "reachable state in which its side was not blocking, or blocking bypassably with the packet carrying the bypass flag), C16_block_rule (start / replace / longest-of; the bypass flag is set by a "
          "start or replace and and-ed by an extension), C16_blocking_end (every BlockingEnd is the expiry of that side's blocking, at the expiry, clearing it), C16_bypass_origin, C16_zero_duration_refuted "
          "(known finding F8), C16_fail_closed (whole runs: if no BlockOutgoing action returned so far for a side allows bypass, nothing at all is tunnel-sent by that side between a positive-duration BlockingBegin and the "
-         "next BlockingEnd), C16_bypass_needs_block (a TunnelSent leaving a blocking side carries the bypass flag and some earlier block action of that side allowed bypass). PARTIAL in one respect: the exact "
-         "'every action that started or updated the current blocking allowed bypass' clause is proved about the simulator's own flag (no_leak + rule), not restated over the trace alone; "
-         "the replaying monitor checks it on generated runs. Fixes F10 and F14 were found by this check.", "DESIGN.md section 0 and 4, C16"),
+         "next BlockingEnd), C16_bypass_needs_block (a TunnelSent leaving a blocking side carries the bypass flag and some earlier block action of that side allowed bypass). C16_bypass_all (whole runs, trace and actions only: the blocking descriptor of a side -- expiry, EVERY contributing action allowed bypass -- is replayed from the reported BlockingBegin/BlockingEnd "
+         "events and their causing actions by the contract rule; every TunnelSent is justified by the replay: the side is not blocking, or all contributors allowed bypass and the packet carries the bypass flag, "
+         "or the same one step ahead for the single BlockingBegin that fired in that instant and is reported right after, or the run was cut in that instant), C16_contributors (the flag is the conjunction over "
+         "the contributing actions, each the cause of a BlockingBegin reported since the last BlockingEnd), C16_end_trace (every BlockingEnd exactly at the replayed expiry; time never passes the replayed expiry; "
+         "one end per blocking; the end after its begin -- each except in the zero-duration-replace corner of F8), C16_literal_rule_refuted (the literal rule is refuted by a zero-duration replacing block on a real run). "
+         "Fixes F10 and F14 were found by this check.", "DESIGN.md section 0 and 4, C16"),
 
  "C17": ("Theorem C17_trace (whole runs on parsed traces recording all events): the returned trace is the event column of a history H (each processed event with the actions its side's framework "
          "returned) in which every PaddingSent/BlockingBegin for machine m is caused by an earlier record of the same side holding a SendPadding/BlockOutgoing action for m, happens exactly at issue "
          "time + timeout with the action's flags, with every later action-timer action for m (newer action or Cancel) before it issued no earlier than the completion time (not superseded before it "
          "was due), and the assignment completion -> cause is injective (fires at most once). Plus the step contracts C17_slot, C17_fire, C17_only_by_firing, C17_earliest and C17_not_past (no event of "
-         "any trace is later than a timer still pending: an action that is not superseded fires before time passes it). Fix F14 was found by this check's monitor.", "DESIGN.md section 0 and 4, C17"),
+         "any trace is later than a timer still pending: an action that is not superseded fires before time passes it). Theorem C17_fires_when_due (whole runs, the converse, same history and cause assignment): an action whose due time simulated time has "
+         "moved past either fired -- its completion is reported in between, on that side, exactly at the due time -- or a newer action-timer action for that machine was returned no later than the due time. "
+         "Fix F14 was found by this check's monitor.", "DESIGN.md section 0 and 4, C17"),
 
  "C18": ("Theorem C18_trace (whole runs on parsed traces recording all events): in the history H every TimerBegin for m follows an UpdateTimer for m returned on that side at that same instant; every "
          "TimerEnd for m is reported exactly at issue time + duration of an earlier UpdateTimer for m of that side, every later timer action for m before it (UpdateTimer or Cancel of the internal "
          "timer) having been issued no earlier than that expiry or being a non-replacing update not reaching beyond it (never for a cancelled or superseded timer). Plus C18_update (fold of the "
-         "contract), C18_begins (exactly one TimerBegin at that instant per update that set the timer), C18_end, C18_only_by_firing, C18_earliest, C18_not_past. Fix F7 was found by this check.", "DESIGN.md section 0 and 4, C18"),
+         "contract), C18_begins (exactly one TimerBegin at that instant per update that set the timer), C18_end, C18_only_by_firing, C18_earliest, C18_not_past. Theorem C18_live_gen (whole runs, the converse, for EVERY run): with the timer replayed from the history by the contract (a reported "
+         "TimerEnd clears it only if it carries the replayed expiry; otherwise it is the previous timer's end reported after a re-arm of the same instant), an update that sets or changes the timer is "
+         "followed by a TimerBegin at that instant, a replayed expiry that time moves past is followed by a TimerEnd exactly there unless a timer action came first, and every TimerEnd is attributed to an "
+         "earlier UpdateTimer with exactly that expiry by a strictly increasing assignment (once per timer). C18_live: the same with the naive replay when no block allows bypass; C18_literal_replay_refuted: "
+         "the naive replay fails on a real run with bypassable blocking. Fix F7 was found by this check.", "DESIGN.md section 0 and 4, C18"),
 
  "C19": ("Theorems C19_projection (no trace-length bound: the filtered run equals the filter of the unfiltered run, Panic/OutOfFuel included), C19_projection_bounded (bound M > 0: the filtered run returns exactly "
          "the first M elements of the filtered trace of the unfiltered, unbounded run), C19_no_assertion (sim_advanced never returns Panic -- no BUG assertion, unwrap or index failure -- for every non-empty "
